@@ -69,8 +69,8 @@ V("C17-mstep-private-means", ["C17", "C19"], "gmm",
   "        machine._means = statistics.sum_px / thresholded_n[:, None]",
   "M-step writes a private field directly", kind="benign")  # _means has no cache: benign for C17 semantics? see below
 V("C17-mstep-private-variances", ["C17", "C13"], "gmm",
-  "        machine.variances = statistics.sum_pxx / thresholded_n[:, None] - np.power(machine.means, 2)",
-  "        machine._variances = statistics.sum_pxx / thresholded_n[:, None] - np.power(machine.means, 2)",
+  "        machine.variances = (statistics.sum_pxx - 2 * machine.means * statistics.sum_px) / thresholded_n[:, None] + np.power(machine.means, 2)",
+  "        machine._variances = (statistics.sum_pxx - 2 * machine.means * statistics.sum_px) / thresholded_n[:, None] + np.power(machine.means, 2)",
   "M-step bypasses the variances setter: no clamp, stale normaliser")
 V("C17-mstep-elem-store", ["C17"], "gmm",
   "        machine.means = statistics.sum_px / thresholded_n[:, None]",
@@ -295,7 +295,9 @@ V2("C03-criterion-first-block", ["C03", "C04"], [
   ], "criterion taken from the first block only: chunk-dependent stopping")
 V("C03-weights-unnormalised", ["C03", "C13"], "gmm", "machine.weights = thresholded_n / statistics.t", "machine.weights = thresholded_n", "ML weights are raw counts (not on the simplex)")
 V("C03-means-not-divided", ["C03"], "gmm", "machine.means = statistics.sum_px / thresholded_n[:, None]", "machine.means = statistics.sum_px / statistics.t", "means divided by the sample count instead of the responsibilities")
-V("C03-variance-mean-unsquared", ["C03", "C15"], "gmm", "machine.variances = statistics.sum_pxx / thresholded_n[:, None] - np.power(machine.means, 2)", "machine.variances = statistics.sum_pxx / thresholded_n[:, None] - machine.means", "mean subtracted unsquared from E[x^2]")
+V("C03-variance-mean-unsquared", ["C03", "C15"], "gmm", "machine.variances = (statistics.sum_pxx - 2 * machine.means * statistics.sum_px) / thresholded_n[:, None] + np.power(machine.means, 2)", "machine.variances = (statistics.sum_pxx - 2 * machine.means * statistics.sum_px) / thresholded_n[:, None] + machine.means", "squared mean replaced by the mean in the centred second moment")
+V("C03-variance-uncentred-form", ["C03"], "gmm", "machine.variances = (statistics.sum_pxx - 2 * machine.means * statistics.sum_px) / thresholded_n[:, None] + np.power(machine.means, 2)", "machine.variances = statistics.sum_pxx / thresholded_n[:, None] - np.power(machine.means, 2)", "revert of fix 2de149c: E[x^2] - mean^2 with possibly frozen means")
+V("C03-variance-cross-sign", ["C03"], "gmm", "machine.variances = (statistics.sum_pxx - 2 * machine.means * statistics.sum_px) / thresholded_n[:, None] + np.power(machine.means, 2)", "machine.variances = (statistics.sum_pxx + 2 * machine.means * statistics.sum_px) / thresholded_n[:, None] + np.power(machine.means, 2)", "cross term of the centred second moment added")
 V("C03-switches-swapped", ["C03"], "gmm", "update_means=machine.update_means, update_variances=machine.update_variances", "update_means=machine.update_variances, update_variances=machine.update_means", "update switches crossed in the wrapper")
 V("C03-store-under-wrong-switch", ["C03"], "gmm",
   "    if update_means:\n        logger.debug('Update means.')\n        machine.means = statistics.sum_px / thresholded_n[:, None]\n    if update_variances:\n        logger.debug('Update variances.')\n        machine.variances =",
